@@ -499,3 +499,47 @@ def r03_16_unit_factories_split_exactly(ctx: Ctx) -> RuleResult:
         else:
             rr.fail(f.qual, f"{name}({bad[0]}) stores (days, nanosecond of day) = {bad[1]}; the exact floor split of {bad[0]} x {unit} ns is {bad[2]}", ctx.loc(f))
     return rr
+
+
+@rule("C03")
+def r03_17_subtraction_is_not_addition_of_the_negation(ctx: Ctx) -> RuleResult:
+    """The day range of Duration is asymmetric ([-2^30, 2^30 - 1]: `_MIN_DAYS = ~_MAX_DAYS`), so `min_value` has no negation.
+    A subtraction that computes `a + (-b)` raises for b == min_value although `a - b` is representable (`min_value - min_value`
+    is zero).  In every subtracting method of a class whose folded range constants are asymmetric, an operand of that class is
+    never negated (unary minus, `.__neg__()`, `negate(...)`)."""
+    rr = RuleResult("R03.17", "subtraction of range-limited values is computed directly, never as addition of the negated operand (the range is asymmetric: min_value has no negation)", min_instances=3)
+    M = ctx.M
+    n_cls = 0
+    for cname in ("Duration",):
+        c = M.cls(cname, required=True)
+        lo = M.fold(ast.parse(f"{cname}._MIN_DAYS", mode="eval").body, c, c.mod)
+        hi = M.fold(ast.parse(f"{cname}._MAX_DAYS", mode="eval").body, c, c.mod)
+        if not (isinstance(lo, int) and isinstance(hi, int)):
+            raise AnalysisError(f"{cname}: range constants not folded")
+        if lo == -hi:
+            continue  # symmetric: negation is total
+        n_cls += 1
+        users = [c] + [M.cls(x) for x in ("Instant", "_LocalInstant") if M.cls(x) is not None]
+        for k in users:
+            for f in sorted(k.all_defs, key=lambda g: g.qual):
+                if isinstance(f.node, ast.Lambda) or not (f.name in ("__sub__", "__rsub__", "minus", "subtract", "__isub__") or f.name.startswith("_minus")):
+                    continue
+                typed = {p.arg for p in f.params if p.annotation is not None and unparse(p.annotation).strip("'\"") in (cname, "Self") and p.arg != f.self_name}
+                if not typed:
+                    continue
+                rr.inst()
+                bad = None
+                for n in own_nodes(f.node):
+                    if isinstance(n, ast.UnaryOp) and isinstance(n.op, ast.USub) and isinstance(n.operand, ast.Name) and n.operand.id in typed:
+                        bad = n
+                    elif isinstance(n, ast.Call) and isinstance(n.func, ast.Attribute) and n.func.attr in ("__neg__", "negate") and (
+                        (isinstance(n.func.value, ast.Name) and n.func.value.id in typed) or any(isinstance(a, ast.Name) and a.id in typed for a in n.args)
+                    ):
+                        bad = n
+                if bad is None:
+                    rr.ok({"fn": f.qual, "operands": sorted(typed)})
+                else:
+                    rr.fail(f.qual, f"`{unparse(bad)}`: the {cname} range is [{lo}, {hi}] days, so negating min_value raises; x - {cname}.min_value must not fail when the difference is in range (e.g. min_value - min_value == zero)", ctx.loc(f, bad))
+    if n_cls == 0:
+        raise AnalysisError("Duration range is symmetric: R03.17 has nothing to decide (re-read the class)")
+    return rr
